@@ -277,6 +277,22 @@ where
         }
     }
     vcore::tryo!(check(&b, "multi-perturbed", d).map(|_| ()));
+    // non-finite components, on one side or on both: whatever the scalar relation says of an infinity or a NaN, the
+    // compound relation is the conjunction of it (checked against a, and of the value against itself)
+    let pos = d.below(n);
+    // (Basis2 and Basis3 have no public constructor from components; the harness builds it through serde_json, which cannot carry
+    // an infinity or a NaN, so those types only get the largest finite values here)
+    let via_json = T::NAME.contains("Basis");
+    let nf = if via_json { d.pick(&[F::max_value(), -F::max_value()]) } else { d.pick(&[F::infinity(), F::neg_infinity(), F::nan(), F::max_value(), -F::max_value()]) };
+    let mut b = a.clone();
+    b[pos] = nf;
+    vcore::tryo!(check(&b, "non-finite-component", d).map(|_| ()));
+    {
+        let tb = T::build(&b);
+        let want = (F::abs_diff_eq(&nf, &nf, eps), F::relative_eq(&nf, &nf, eps, rel), F::ulps_eq(&nf, &nf, tiny, ulps));
+        let got = (tb.abs_diff_eq(&tb, eps), tb.relative_eq(&tb, eps, rel), tb.ulps_eq(&tb, tiny, ulps));
+        ensure!(got == want, "non-finite-self", "{} with component {} = {:?} compared with itself: {:?}, the scalar relations give {:?}", T::NAME, pos, nf, got, want);
+    }
     pass(if outside > 0 && inside > 0 { "inside-and-outside" } else { "one-sided" }, outside > 0 && inside > 0)
 }
 
@@ -458,6 +474,24 @@ fn matrix_predicates<F: Flt>(d: &mut Draw) -> Outcome {
             let want_s = (0..N).all(|a| (0..N).all(|b| ueq(g[a * N + b], g[b * N + a])));
             ensure!(m.is_symmetric() == want_s, "is_symmetric-extreme", "{}::is_symmetric() = {} on entries of magnitude {:?}", name, m.is_symmetric(), scale);
             ensure!(m.is_finite() == g.iter().all(|x| x.is_finite()), "is_finite-extreme", "{}::is_finite() on entries of magnitude {:?}", name, scale);
+            // one entry not finite, at every position: is_diagonal looks at the off-diagonal entries only, is_identity
+            // at every entry, is_invertible at whatever the determinant comes out as
+            {
+                let pos = d.below(N * N);
+                let nf = d.pick(&[F::nan(), F::infinity(), F::neg_infinity()]);
+                let mut e = vec![z; N * N];
+                for i in 0..N { e[i * N + i] = if d.bool() { one } else { diag[i] }; }
+                e[pos] = nf;
+                let m = <$M<F> as Parts<F>>::build(&e);
+                let want_d = (0..N * N).all(|i| i / N == i % N || ueq(e[i], z));
+                ensure!(m.is_diagonal() == want_d, "is_diagonal-non-finite", "{}::is_diagonal() = {} with entry ({},{}) = {:?} (only off-diagonal entries matter)", name, m.is_diagonal(), pos / N, pos % N, nf);
+                let me = <$M<F> as AbsDiffEq>::default_epsilon();
+                let mu = <$M<F> as UlpsEq>::default_max_ulps();
+                let want_i = (0..N * N).all(|i| F::ulps_eq(&e[i], &if i / N == i % N { one } else { z }, me, mu));
+                ensure!(m.is_identity() == want_i, "is_identity-non-finite", "{}::is_identity() = {} with entry ({},{}) = {:?}", name, m.is_identity(), pos / N, pos % N, nf);
+                ensure!(m.is_invertible() == !ueq(m.determinant(), z), "is_invertible-non-finite", "{}::is_invertible() = {} with determinant {:?}", name, m.is_invertible(), m.determinant());
+                ensure!(!m.is_finite(), "is_finite-non-finite", "{}::is_finite() is true with entry ({},{}) = {:?}", name, pos / N, pos % N, nf);
+            }
         }};
     }
     preds!(Matrix2, 2);
